@@ -3196,6 +3196,9 @@ class Interp:
             v = args[0]
             if isinstance(v, Tmpl) and v.is_literal():
                 return getattr(_kw, q.split(".")[1])(v.text())
+            if isinstance(v, Sym) and v.kind == "ident" and v.name:
+                # identifiers of a shape carry a concrete spelling; the families contain names spelled like soft keywords
+                return getattr(_kw, q.split(".")[1])(v.name)
             if isinstance(v, Sym) and v.kind in ("ident", "str", "rawtoken"):
                 # an identifier of the DSL may be spelled like any word, also like one Python reserves
                 which = "a Python keyword" if q.endswith("iskeyword") else "a Python soft keyword (match, case, type, _)"
